@@ -118,7 +118,9 @@ def run(tier, repo):
                 ok = a_[0] == "len" and b_[0] == "len"
                 rp.check(ok, "PANIC-SITE", key + "/" + text_key(node), where, "addition can overflow", found=(sym_str(a_), sym_str(b_)), why_ok="LEN-SUM: two slice lengths cannot exceed usize")
             elif kind == "BoundsCheck":
-                ok, why = chunk_index(node, parents, fs, env, fw)
+                ok, why = const_index_guarded(node, fs, env, fw)
+                if not ok:
+                    ok, why = chunk_index(node, parents, fs, env, fw)
                 rp.check(ok, "PANIC-SITE", key + "/" + text_key(node), where, "index can be out of bounds: " + why, why_ok="CHUNKS-INDEX: " + why)
             else:
                 rp.fail("PANIC-SITE", key + "/unknown-kind", where, "assertion kind %s has no discharge rule" % kind)
@@ -307,6 +309,27 @@ def find_cycle(graph):
             if r:
                 return r
     return None
+
+
+def const_index_guarded(node, fs, env, fw):
+    """s[k] with a constant k where a dominating guard establishes len(s) >= k + 1 (e.g. `if s.len() < 4 { return .. }` before s[3])"""
+    idx = strip(node["i"])
+    if not (idx.get("k") == "lit" and "v" in idx):
+        return False, "index is not a constant"
+    try:
+        base = fw.ev.sym(node["x"], env, {})
+    except Exception:
+        return False, "indexed value cannot be read"
+    if base[0] == "tok":
+        base = ["tokbytes"] + base[1:]
+    why = entails_ge(fs, ["len", base], idx["v"] + 1)
+    if why:
+        return True, "index %d and %s" % (idx["v"], why)
+    if base[0] == "tokbytes":
+        why = entails_ge(fs, ["remaining"], idx["v"] + 1)
+        if why:
+            return True, "index %d and %s" % (idx["v"], why)
+    return False, "no dominating guard establishes len >= %d" % (idx["v"] + 1)
 
 
 def chunk_index(node, parents, fs, env, fw):
